@@ -37,11 +37,10 @@ ASSUMPTIONS = [
     'process death, not power loss: files are written sequentially and what was written before the crash point is on '
     'disk; reordered / unsynced writes are not modelled',
     'h5py I/O is invisible to audit hooks: H5Data is covered only through the ContinuesData directory protocol',
-    'FigureData is not exercised (pickled matplotlib figures)',
     'crash states are checked by new Chain objects in the same process',
 ]
 
-KINDS = ['dict', 'list', 'numpy', 'frame', 'generator', 'lazy', 'list_numpy', 'dir', 'continues']
+KINDS = ['dict', 'list', 'numpy', 'frame', 'generator', 'lazy', 'list_numpy', 'dir', 'continues', 'figure']
 RAISED = ['raise-pre', 'raise-mid', 'gen-mid', 'mistyped', 'unserializable', 'interrupt-pre', 'interrupt-mid']
 
 
